@@ -228,12 +228,70 @@ Fixpoint statuses_ok (out : list Z) : bool :=
   | _ => false
   end.
 
+Lemma statuses_report r l : total r -> statuses_ok l = true -> statuses_ok (C08.Model.report r ++ l) = true.
+Proof.
+  intros T Hl. destruct r as [rc|e|s]; [| |contradiction]; cbn [C08.Model.report app statuses_ok].
+  - exact Hl.
+  - unfold C09.Model.code9. destruct (e =? E_SEC); cbn; exact Hl.
+Qed.
+
+Lemma tr_facts c : C08.Model.valid c -> C09.Model.tr_ok (C09.Model.c_tr (C08.Model.c_recv c)) = true.
+Proof.
+  intro Hv. unfold C08.Model.valid, C08.Model.validb in Hv. do 3 (apply andb_true_iff in Hv as [Hv _]).
+  unfold C09.Model.validb in Hv. do 2 (apply andb_true_iff in Hv as [Hv _]). exact Hv.
+Qed.
+
+Lemma pre_statuses c l : C08.Model.valid c -> statuses_ok l = true ->
+  forall pre p, statuses_ok (fst (C08.Model.pre_feed current c p pre) ++ l) = true.
+Proof.
+  intros Hv Hl pre. induction pre as [|ch rest IH]; intro p; cbn [C08.Model.pre_feed]; [exact Hl|].
+  pose proof (tr_facts c Hv) as Ht.
+  assert (T : total (fst (recv (C09.Model.tr_prims (C09.Model.c_tr (C08.Model.c_recv c))) current
+                               (C09.Model.receiver_of (C08.Model.c_recv c) p) (C09.Model.flat ch)))).
+  { apply recv_total; [exact C09.Proofs.current_guarded|apply C09.Proofs.tr_rsa|apply C09.Proofs.tr_cert|apply C09.Proofs.tr_aes]; exact Ht. }
+  destruct (recv _ current (C09.Model.receiver_of (C08.Model.c_recv c) p) (C09.Model.flat ch)) as [r p'].
+  specialize (IH p'). destruct (C08.Model.pre_feed current c p' rest) as [os pf].
+  cbn [fst] in *. rewrite <- app_assoc. apply statuses_report; assumption.
+Qed.
+
 Lemma run_statuses c : C08.Model.valid c -> statuses_ok (C08.Model.run c) = true.
 Proof.
-  intro Hv. unfold C08.Model.run, C08.Model.run_with.
+  intro Hv. unfold C08.Model.run, C08.Model.run_with. apply pre_statuses; [exact Hv|].
+  unfold C08.Model.judged.
   induction (C09.Model.c_chunks (C08.Model.c_recv c)) as [|ch rest IH]; [reflexivity|].
-  cbn [flat_map]. pose proof (one_total c (C09.Model.flat ch) Hv) as T.
-  destruct (C08.Model.one current c (C09.Model.flat ch)) as [rc|e|s]; [| |contradiction]; cbn [C08.Model.report app statuses_ok].
-  - exact IH.
-  - unfold C09.Model.code9. destruct (e =? E_SEC); cbn; exact IH.
+  cbn [flat_map]. apply statuses_report; [apply one_total; exact Hv|exact IH].
+Qed.
+
+(* ================= the receive path never switches a channel to the policy None ================= *)
+Lemma recv_policy P fx r src :
+  snd (recv P fx r src) = r_policy r \/ is_none (snd (recv P fx r src)) = false.
+Proof.
+  unfold recv. destruct (parse_hdr src) as [[h b0]|e|s]; [|left; reflexivity|left; reflexivity].
+  destruct (match h_type h with OPN => parse_asym P (r_limits r) b0 | _ => parse_sym b0 end) as [[sh b1]|e|s];
+    [|left; reflexivity|left; reflexivity].
+  destruct (negb (h_size h =? len src)); [left; reflexivity|].
+  destruct sh as [tok|uri cert thumb]; [left; reflexivity|].
+  destruct (policy_of_uri _) as [pol|]; [|left; reflexivity].
+  destruct (is_none pol) eqn:Hn; [left; reflexivity|right; exact Hn].
+Qed.
+
+Lemma recv_stays_secured P fx r src :
+  secured (r_policy r) (r_mode r) = true -> secured (snd (recv P fx r src)) (r_mode r) = true.
+Proof.
+  intro Hs. destruct (recv_policy P fx r src) as [H|H]; [rewrite H; exact Hs|].
+  unfold secured in *. rewrite H. apply andb_true_iff in Hs as [_ Hm]. exact Hm.
+Qed.
+
+(* ... nor does any sequence of chunks: whatever an outsider feeds a Sign / SignAndEncrypt channel,
+   the chunk after it still meets a secured channel *)
+Lemma pre_stays_secured fx c : forall pre p,
+  secured p (C09.Model.c_mode (C08.Model.c_recv c)) = true ->
+  secured (snd (C08.Model.pre_feed fx c p pre)) (C09.Model.c_mode (C08.Model.c_recv c)) = true.
+Proof.
+  induction pre as [|ch rest IH]; intros p Hs; cbn [C08.Model.pre_feed]; [exact Hs|].
+  pose proof (recv_stays_secured (C09.Model.tr_prims (C09.Model.c_tr (C08.Model.c_recv c))) fx
+                (C09.Model.receiver_of (C08.Model.c_recv c) p) (C09.Model.flat ch) Hs) as H1.
+  destruct (recv _ fx (C09.Model.receiver_of (C08.Model.c_recv c) p) (C09.Model.flat ch)) as [r p'].
+  cbn [snd C09.Model.receiver_of r_mode] in H1. specialize (IH p' H1).
+  destruct (C08.Model.pre_feed fx c p' rest) as [os pf]. exact IH.
 Qed.
